@@ -227,6 +227,126 @@ theorem triple_jump_identity (m : ℕ) (hm : Odd m) (r : ℝ) (hr : r ^ m = 2) (
   have e : 1 - 2 * (1 / (2 - r)) = -(r / (2 - r)) := by field_simp; ring
   rw [e, hm.neg_pow, div_pow, div_pow, hr, one_pow]; ring
 
+/-! ### the recursion at every depth (not only the traced orders 4, 6, 8)
+
+`_recursive_update_poly(order)` calls itself three times with the fractions (γ, 1−2γ, γ) down to the order-2 base scheme; the
+model of that recursion for an arbitrary list of levels, each with an arbitrary list of fractions, is `tower`.  `words_are_composed`
+(above) identifies the traced words with `tower` for the three traced levels; the theorems here hold for every depth. -/
+
+/-- scale every fraction of a real word by `g` (one recursive call with `delta·g`) -/
+def scaleWordR (g : ℝ) (w : List (Nat × ℝ)) : List (Nat × ℝ) := w.map fun p => (p.1, g * p.2)
+/-- one level of the recursion: the lower word once per fraction of the jump -/
+def composedR (j : List ℝ) (w : List (Nat × ℝ)) : List (Nat × ℝ) := j.flatMap fun g => scaleWordR g w
+/-- the recursion to any depth: outermost jump first -/
+def tower (base : List (Nat × ℝ)) : List (List ℝ) → List (Nat × ℝ)
+  | [] => base
+  | j :: js => composedR j (tower base js)
+
+theorem scaleWordR_reverse (g : ℝ) (w : List (Nat × ℝ)) : (scaleWordR g w).reverse = scaleWordR g w.reverse := by
+  unfold scaleWordR; rw [List.map_reverse]
+
+/-- a palindromic jump applied to a palindromic word is a palindromic word -/
+theorem composedR_palindromic (j : List ℝ) (w : List (Nat × ℝ)) (hj : j.reverse = j) (hw : w.reverse = w) :
+    (composedR j w).reverse = composedR j w := by
+  unfold composedR
+  rw [List.reverse_flatMap, hj]
+  congr 1
+  funext g
+  simp only [Function.comp, scaleWordR_reverse, hw]
+
+/-- **tower_palindromic**: at every recursion depth the composed word is a palindrome when the base scheme and every jump are -/
+theorem tower_palindromic (base : List (Nat × ℝ)) (hb : base.reverse = base) :
+    ∀ js : List (List ℝ), (∀ j ∈ js, j.reverse = j) → (tower base js).reverse = tower base js := by
+  intro js
+  induction js with
+  | nil => intro _; exact hb
+  | cons j js ih =>
+    intro h
+    exact composedR_palindromic j _ (h j (by simp)) (ih fun j' hj' => h j' (by simp [hj']))
+
+/-- **tower_reversible**: the scheme of every order 2+2k built by the recursion from a palindromic base scheme with palindromic
+jumps (the triple jump (γ, 1−2γ, γ) is one for every γ) is exactly time-reversible: a step with `−h` undoes a step with `h`, for all
+gradients, states, step sizes and coupling constants that agree for `h` and `−h`. -/
+theorem tower_reversible (gQ gP : V → V → V) (ω h : ℝ) (base : List (Nat × ℝ)) (hb : base.reverse = base)
+    (js : List (List ℝ)) (hjs : ∀ j ∈ js, j.reverse = j) (z : Ext V) :
+    applyWord gQ gP ω (-h) (tower base js) (applyWord gQ gP ω h (tower base js) z) = z := by
+  have := word_reversible gQ gP ω h (tower base js) z
+  rwa [tower_palindromic base hb js hjs] at this
+
+/-- the triple jump is a palindrome for every fraction -/
+theorem triple_jump_palindromic (g : ℝ) : [g, 1 - 2 * g, g].reverse = [g, 1 - 2 * g, g] := by simp
+
+/-- total fraction of the letter `k` (0 = φ_a, 1 = φ_b, 2 = rotation) in a word: the time that sub-flow is advanced per unit step -/
+def letterSum (k : Nat) (w : List (Nat × ℝ)) : ℝ := (w.map fun p => if p.1 = k then p.2 else 0).sum
+
+theorem letterSum_append (k : Nat) (u v : List (Nat × ℝ)) : letterSum k (u ++ v) = letterSum k u + letterSum k v := by
+  simp [letterSum]
+
+theorem letterSum_scale (k : Nat) (g : ℝ) (w : List (Nat × ℝ)) : letterSum k (scaleWordR g w) = g * letterSum k w := by
+  induction w with
+  | nil => simp [letterSum, scaleWordR]
+  | cons a w ih =>
+    have e : scaleWordR g (a :: w) = (a.1, g * a.2) :: scaleWordR g w := rfl
+    have c : ∀ (b : Nat × ℝ) (u : List (Nat × ℝ)), letterSum k (b :: u) = (if b.1 = k then b.2 else 0) + letterSum k u := by
+      intro b u; simp [letterSum]
+    rw [e, c, c, ih]
+    by_cases hk : a.1 = k <;> simp [hk] <;> ring
+
+theorem letterSum_composed (k : Nat) (j : List ℝ) (w : List (Nat × ℝ)) :
+    letterSum k (composedR j w) = j.sum * letterSum k w := by
+  induction j with
+  | nil => simp [composedR, letterSum]
+  | cons g j ih =>
+    have e : composedR (g :: j) w = scaleWordR g w ++ composedR j w := by simp [composedR]
+    rw [e, letterSum_append, letterSum_scale, ih, List.sum_cons]; ring
+
+/-- **tower_consistent**: when every jump's fractions sum to 1, every sub-flow is advanced by exactly the same total time at every
+recursion depth as in the base scheme (first-order consistency of the composed scheme of every order) -/
+theorem tower_consistent (k : Nat) (base : List (Nat × ℝ)) :
+    ∀ js : List (List ℝ), (∀ j ∈ js, j.sum = 1) → letterSum k (tower base js) = letterSum k base := by
+  intro js
+  induction js with
+  | nil => intro _; rfl
+  | cons j js ih =>
+    intro h
+    show letterSum k (composedR j (tower base js)) = _
+    rw [letterSum_composed, h j (by simp), one_mul]
+    exact ih fun j' hj' => h j' (by simp [hj'])
+
+/-- the triple jump sums to 1 for every fraction -/
+theorem triple_jump_sum (g : ℝ) : [g, 1 - 2 * g, g].sum = 1 := by simp; ring
+
+/-- the Strang base scheme (`base_scheme`) advances each of the three sub-flows by exactly one step -/
+theorem base_letterSums : ∀ k ∈ [0, 1, 2], letterSum k [(0, 1/2), (1, 1/2), (2, 1), (1, 1/2), (0, 1/2)] = 1 := by
+  intro k hk
+  simp only [List.mem_cons, List.not_mem_nil, or_false] at hk
+  rcases hk with rfl | rfl | rfl <;> norm_num [letterSum]
+
+/-- link to the traced words: the dyadic composition `composed` evaluates to the real one -/
+theorem dyR_mul (a b : Dy) : dyR (Dy.mul a b) = dyR a * dyR b := by
+  simp only [dyR, Dy.mul, Int.cast_mul, pow_add]; field_simp
+
+theorem wordR_composed (j : List (Dy × Nat)) (w : List (Nat × Dy)) :
+    wordR (composed j w) = composedR (j.map fun p => dyR p.1) (wordR w) := by
+  unfold composed composedR wordR scaleWord scaleWordR
+  induction j with
+  | nil => rfl
+  | cons p j ih =>
+    simp only [List.flatMap_cons, List.map_append, List.map_cons, ih, List.map_map]
+    congr 1
+    apply List.map_congr_left
+    intro a _
+    simp [Function.comp, dyR_mul]
+
+/-- non-vacuity: a two-level tower with the triple jump, reversible and consistent -/
+example (g₁ g₂ : ℝ) :
+    letterSum 2 (tower [(0, 1/2), (1, 1/2), (2, 1), (1, 1/2), (0, 1/2)] [[g₁, 1 - 2 * g₁, g₁], [g₂, 1 - 2 * g₂, g₂]]) = 1 := by
+  rw [tower_consistent 2 _ _ (by
+    intro j hj
+    simp only [List.mem_cons, List.not_mem_nil, or_false] at hj
+    rcases hj with rfl | rfl <;> exact triple_jump_sum _)]
+  exact base_letterSums 2 (by simp)
+
 /-! ### symplecticity of the sub-flows (Jacobians over block matrices, any number of degrees of freedom) -/
 
 section symplectic
